@@ -64,7 +64,20 @@ type KnownFinding struct {
 var (
 	verifDir = "/verif"
 	repoDir  = "/repo"
+	outDir   = "/verif" // evidence/ and replays/ are written below this directory
 )
+
+// SYMGO_REPO / SYMGO_OUT redirect the tree under test and the output directory;
+// used only by bin/mutcheck to run a check against a scratch worktree carrying a
+// seeded change without touching /repo or the committed evidence.
+func init() {
+	if v := os.Getenv("SYMGO_REPO"); v != "" {
+		repoDir = v
+	}
+	if v := os.Getenv("SYMGO_OUT"); v != "" {
+		outDir = v
+	}
+}
 
 func main() {
 	if len(os.Args) < 2 {
@@ -495,7 +508,7 @@ type replayFile struct {
 }
 
 func writeReplay(p *PropCfg, h HarnessCfg, c replayCase, v interp.Violation) string {
-	dir := filepath.Join(verifDir, "replays")
+	dir := filepath.Join(outDir, "replays")
 	os.MkdirAll(dir, 0o755)
 	rf := replayFile{Property: p.ID, Pkg: h.Pkg, Label: v.Label, Kind: v.Kind, Msg: v.Msg, Cases: []replayCase{c}, Decision: v.Decisions}
 	data, _ := json.MarshalIndent(rf, "", " ")
